@@ -29,6 +29,36 @@ CLAIMED = {
         design_ref="DESIGN.md section 5, C10",
         technique="Coq proof (induction; literal re-index loop = rename by count of smaller deleted indices) with exhaustive model/implementation correspondence under vm_compute",
         note=NOTE_COMMON),
+    "C09": dict(
+        text="Theorems: the consistency invariant WF (one entry per atom in every per-atom array, every term row has its type and extra-field "
+             "row, every term refers to existing atoms) is preserved by deletion (any NoDup index list) and by extension (default or explicit "
+             "offsets, any identity map into existing atoms), hence by every history of such operations (induction over the operation list); "
+             "type ids keep their meaning through extend_types (old ids resolve to old text, new ids to the other structure's text, also after "
+             "a kind was emptied). Replication, pop, subset, copy and the LAMMPS writability clause rest on the correspondence "
+             "(model = implementation after every step of bounded-exhaustive and random histories) and on the invariant evaluated through "
+             "ghost ids on the implementation's own states; replace histories are covered under C04-C08.",
+        design_ref="DESIGN.md section 5, C09",
+        technique="Coq proof (invariant preserved by each operation, induction over histories) with model/implementation correspondence after every step of generated operation histories",
+        note=NOTE_COMMON + " Clauses resting on correspondence only: replicate/pop/subset preservation of WF, LAMMPS writability."),
+    "C11": dict(
+        text="Theorems (all structures, maps, offsets): other's non-identical atoms are appended in order, identical ones are not duplicated "
+             "and adopt other's type; the index map sends each appended atom to its new position; for every kind the resulting rows are "
+             "exactly [old rows not equal to a new tuple forwards or reversed] ++ [other's rows re-targeted, type + offset, extra fields "
+             "matched by label]; labels merged; with extend_types' offsets new types resolve to other's coefficient text and old ones keep "
+             "theirs (compatibility hypothesis shown necessary by a counterexample); zero offsets share ids. Tied to the code by exhaustive "
+             "enumeration of all partial injective identity maps 3->4 x term configurations x offset modes.",
+        design_ref="DESIGN.md section 5, C11",
+        technique="Coq proof (np.delete/cdist override semantics characterised as filter ++ append) with exhaustive model/implementation correspondence under vm_compute",
+        note=NOTE_COMMON),
+    "C12": dict(
+        text="Theorems (any cell shape, any factors): replicate yields, per multiplier triple (each 0<=i<a,0<=j<b,0<=k<c exactly once, NoDup), "
+             "the original atoms translated by i*A+j*B+k*C with identical type/charge/group; type tables unchanged; new cell rows a*A,b*B,c*C; "
+             "the set of positions modulo the new lattice equals that modulo the old lattice (infinite crystal unchanged); 1x1x1 is the "
+             "identity; shifted copies of terms never supersede existing ones. The per-image copy of terms with types and the purity of "
+             "the original object rest on the correspondence and on the property evaluated directly on the implementation's output.",
+        design_ref="DESIGN.md section 5, C12",
+        technique="Coq proof (fold over multiplier triples; integer lattice arithmetic by ring/div-mod) with model/implementation correspondence on grid coordinates",
+        note=NOTE_COMMON + " Clause resting on correspondence only: multiset of replicated terms; original object unmodified (Python mutation)."),
 }
 
 PENDING_REASON = "no check registered yet: the Coq model and correspondence for this property are still being built (see DESIGN.md section 7 work order); nothing is claimed"
